@@ -12,6 +12,22 @@ OUT_ROOT = os.environ.get("VERIF_OUT_ROOT", VERIF)  # evidence/ and replay/ go h
 BASE_FLAGS = "--cfg httparse_verif"
 
 
+def scratch_dir():
+    """Per-process scratch directory for shard outputs, journals, callgrind files: two checks running at
+    the same time (e.g. against different scratch repositories) must not clobber each other's files."""
+    d = os.path.join(TARGET_ROOT, "out", "p%d" % os.getpid())
+    os.makedirs(d, exist_ok=True)
+    return d
+
+
+def _cleanup_scratch():
+    shutil.rmtree(os.path.join(TARGET_ROOT, "out", "p%d" % os.getpid()), ignore_errors=True)
+
+
+import atexit
+atexit.register(_cleanup_scratch)
+
+
 class Inconclusive(Exception):
     pass
 
@@ -228,8 +244,7 @@ def journal_rerun(vname, prop, tier, seed, shard, nshards, outdir, extra_env, ti
 
 def run_shards(vname, prop, tier, seed, nshards=None, extra_env=None, timeout=600, jobs=None):
     nshards = nshards or NCPU
-    outdir = os.path.join(TARGET_ROOT, "out")
-    os.makedirs(outdir, exist_ok=True)
+    outdir = scratch_dir()
     if variant(vname)["kind"] != "miri":
         build(vname)
     else:
@@ -359,7 +374,7 @@ class Verdict:
         for i, a in enumerate(r["cmd"]):
             if a == "--shard":
                 nsh = int(r["cmd"][i + 1].split("/")[1])
-        args, rr = journal_rerun(vname, self.prop, tier, self.seed, r["shard"], nsh, os.path.join(TARGET_ROOT, "out"), r.get("env_extra"), 900)
+        args, rr = journal_rerun(vname, self.prop, tier, self.seed, r["shard"], nsh, scratch_dir(), r.get("env_extra"), 900)
         if rr["status"] == "ok":
             self.inconclusive.append("%s shard %d died (%s) but the journaled re-run passed" % (label, r["shard"], what))
             return
